@@ -5,6 +5,7 @@ use crate::conv::*;
 use crate::engine::*;
 use crate::gen::G;
 use crate::gens::*;
+use crate::shim::*;
 use crate::transport::*;
 use crate::wire::*;
 use serde::{Deserialize, Serialize};
@@ -22,7 +23,7 @@ impl Prop for C12 {
         "C12"
     }
     fn rule(&self) -> String {
-        "cases = C03-style conversations x arrival schedule: strict lock-step (the embedded reference client releases message i+1 only after the reply to message i has been decoded from *flushed* bytes), fully pipelined, or chunkings that end reads after k complete commands plus a partial one; short transport writes. Oracle, at every read() call: with M = client messages wholly contained in the bytes delivered so far, the bytes covered by the last flush() decode to the greeting plus a complete reply to every reply-expecting message in M; in lock-step mode the server must never call read() while the client is still owed a reply ('would block forever') and every command must be served. Non-trivial = some read delivered >= 2 whole commands, or lock-step with >= 3 exchanges.".into()
+        "cases = C03-style conversations x arrival schedule: strict lock-step (the embedded reference client releases message i+1 only after the reply to message i has been decoded from *flushed* bytes), fully pipelined, or chunkings that end reads after k complete commands plus a partial one; short transport writes; 1 in 5 conversations has one reply of 254-1026 packets (around the multiples of 256). Oracle, at every read() call: with M = client messages wholly contained in the bytes delivered so far, the bytes covered by the last flush() decode to the greeting plus a complete reply to every reply-expecting message in M; in lock-step mode the server must never call read() while the client is still owed a reply ('would block forever') and every command must be served. Non-trivial = some read delivered >= 2 whole commands, or lock-step with >= 3 exchanges.".into()
     }
     fn assumptions(&self) -> Vec<String> {
         vec!["invariant over a blocking in-memory transport, not a kernel socket; plaintext only (C18 applies the lock-step detection over TLS)".into()]
@@ -36,6 +37,21 @@ impl Prop for C12 {
     fn gen(&self, g: &mut G<'_>, _tier: Tier) -> Case {
         let opts = ConvOpts { max_cmds: 8, max_rows: 3, sentinels: false, default_init_sometimes: true, quit_sometimes: true };
         let mut conv = gen_conv(g, &opts);
+        // sometimes one long reply: packet counts around the multiples of 256 where an 8-bit
+        // packet counter comes back to its start
+        if g.chance(1, 5) {
+            let idx: Vec<usize> = conv.actions.iter().enumerate().filter(|(_, a)| matches!(a, Action::Result(_))).map(|(i, _)| i).collect();
+            if !idx.is_empty() {
+                let ai = *g.pick(&idx);
+                let ncols = g.usize_in(1, 3);
+                // reply packets = 1 (count) + ncols + 1 (EOF) + rows + 1 (EOF)
+                let target = *g.pick(&[255usize, 256, 257, 511, 512, 513, 768, 1024]) + g.usize_in(0, 2) - 1;
+                let rows = target.saturating_sub(ncols + 3);
+                let cols: Vec<crate::vals::ColSpec> = (0..ncols).map(|i| crate::vals::ColSpec::simple(&format!("c{}", i), T_LONG, 0)).collect();
+                let rows: Vec<RowProg> = (0..rows).map(|r| RowProg { cells: (0..ncols).map(|c| crate::vals::Val::plain(crate::vals::Base::I32((r + c) as i32))).collect(), form: RowForm::WriteRow }).collect();
+                conv.actions[ai] = Action::Result(Program { steps: vec![Step::Set { cols, rows, end: SetEnd::Finish }] });
+            }
+        }
         let (len, ends, _) = client_stream_meta(&conv);
         conv.sched = gen_schedule(g, len, &ends);
         conv.lockstep = g.chance(2, 5);
